@@ -121,7 +121,8 @@ impl Fp {
     }
     /// sqrt(-1): 2^((p-1)/4)
     pub fn sqrt_m1() -> Fp {
-        Fp::from_u64(2).pow(&p().wrapping_sub(&U256::ONE).shr(2))
+        static I: std::sync::OnceLock<Fp> = std::sync::OnceLock::new();
+        *I.get_or_init(|| Fp::from_u64(2).pow(&p().wrapping_sub(&U256::ONE).shr(2)))
     }
     /// Some root (either sign) if self is a square. p = 5 mod 8.
     pub fn sqrt(&self) -> Option<Fp> {
@@ -171,5 +172,6 @@ pub fn sqrt_ratio_i(u: &Fp, v: &Fp) -> (bool, Fp) {
 
 pub fn d() -> Fp {
     // d = -121665/121666
-    Fp::from_u64(121665).neg().div(&Fp::from_u64(121666))
+    static D: std::sync::OnceLock<Fp> = std::sync::OnceLock::new();
+    *D.get_or_init(|| Fp::from_u64(121665).neg().div(&Fp::from_u64(121666)))
 }
